@@ -25,6 +25,10 @@ CLAIMED.update({
  'C14': dict(text='Tabulated1DFunction (sorting, segment search incl. bisection, eval, evalDerivative, extrapolation) and DeadOilPvt/DryGasPvt built from hand-set tables are executed with symbolic nodes (3-5) and evaluation point; z3 proves node honouring, bracketing between nodes (also for viscosity = (1/B)/(1/(B mu))), derivative = chord slope for double and Evaluation arguments, and the extrapolation rules.',
              note='doubles as reals; initFromState (table extension, unit conversion), live-oil/wet-gas 2D tables, saturation-pressure Newton iteration and PVTW/PVCDO closed forms outside', design='4/C14'),
 })
+CLAIMED.update({
+ 'C15': dict(text='PiecewiseLinearTwoPhaseMaterial and EclEpsTwoPhaseLaw are executed with symbolic monotone tables, symbolic scaled/unscaled end-point triples, relperm scaling values and saturation; z3 proves node honouring, [0,max] bounds and monotonicity, that scaled end-points map onto table end-points (two- and three-point), that scaling with the table end-points is the identity, that the inverse maps undo the forward maps, and the vertical KRW/KRWR scaling laws.',
+             note='doubles as reals; material-law manager initialisation from an EclipseState (family I/II equivalence, satfunc property initialisers), three-phase combination and hysteresis scanning curves outside this check', design='4/C15'),
+})
 NA = {
 }
 ALL = ['C%02d' % i for i in range(1, 21)]
